@@ -472,8 +472,17 @@ def scan_trusted(results):
             for pat in ('assume(', 'admit(', 'assume_specification', 'external_type_specification', 'external_fn_specification'):
                 if pat in s:
                     out.append('%s: %s  [%s:%d]' % (pat.rstrip('('), re.sub(r'\s+', ' ', s)[:140], r['tag'], i + 1))
-            if 'external_body' in s and 'broadcast proof fn' in ' '.join(r['build'].lines[i:i + 2]):
-                out.append('axiom (external_body proof fn): %s' % re.sub(r'\s+', ' ', r['build'].lines[i + 1].strip())[:140])
+            if 'external_body' in s and 'verifier::' in s:
+                nxt = ' '.join(x.strip() for x in r['build'].lines[i + 1:i + 4])
+                nxt = re.sub(r'/\*@\*/\s*', '', nxt)
+                mm = re.search(r'((?:pub(?:\([^)]*\))?\s+)?(?:broadcast\s+)?(?:proof\s+)?fn\s+\w+|struct\s+\w+)', nxt)
+                if mm and 'proof' in mm.group(1):
+                    out.append('axiom (external_body proof fn): %s' % re.sub(r'\s+', ' ', nxt)[:140])
+                elif mm and 'fn ' in mm.group(1) and not any(
+                        org and org[0] == 'repo' and re.search(r'\bfn\s+\w+', ll)
+                        for ll, org in zip(r['build'].lines[i + 1:i + 4], r['build'].origin[i + 1:i + 4])):
+                    # a ghost-line function (wrapper / stub of a dependency), not a function of /repo
+                    out.append('assumed wrapper/stub (external_body, not /repo code): %s' % re.sub(r'\s+', ' ', nxt)[:140])
     return out
 
 
